@@ -231,11 +231,18 @@ func (r *TrzszRelay) flushHandshakeBuffer(confirm bool) {
 	r.bufferLock.Lock()
 	defer r.bufferLock.Unlock()
 
+	// what was parked during the handshake is forwarded without passing the loops that watch for the end of the transfer
+	ended := false
+	hasEndMarker := func(buf []byte) bool {
+		return bytes.Contains(buf, []byte("#EXIT:")) || bytes.Contains(buf, []byte("#FAIL:")) || bytes.Contains(buf, []byte("#fail:"))
+	}
+
 	for {
 		buf := r.stdinBuffer.popBuffer()
 		if buf == nil {
 			break
 		}
+		ended = ended || hasEndMarker(buf)
 		if t := r.tunnelRelay.Load(); t != nil && r.tunnelConnected.Load() {
 			t.clientBufChan <- buf
 		} else {
@@ -248,6 +255,7 @@ func (r *TrzszRelay) flushHandshakeBuffer(confirm bool) {
 		if buf == nil {
 			break
 		}
+		ended = ended || hasEndMarker(buf)
 		if t := r.tunnelRelay.Load(); t != nil && r.tunnelConnected.Load() {
 			t.serverBufChan <- buf
 		} else {
@@ -261,6 +269,9 @@ func (r *TrzszRelay) flushHandshakeBuffer(confirm bool) {
 
 	if confirm {
 		r.relayStatus.Store(kRelayTransferring)
+		if ended { // the transfer was given up while the handshake was still going on
+			r.resetToStandby(kRelayTransferring)
+		}
 	} else {
 		r.resetToStandby(kRelayHandshaking)
 	}
